@@ -4,7 +4,7 @@ From OQ3 Require Import gen.Templates Model.Accept.
 Import ListNotations.
 
 Lemma templates_accepted :
-  forallb (fun c => forallb (fun i => k_c04_rejected i || accepted_in c i) ids) ctx_ids = true.
+  forallb (fun c => forallb (fun i => k_c04_rejected i || k_ctx_empty c i || accepted_in c i) ids) ctx_ids = true.
 Proof. vm_compute. reflexivity. Qed.
 Lemma known_rejected_everywhere :
   forallb (fun c => forallb (fun i => negb (k_c04_rejected i) || negb (accepted_in c i)) ids) ctx_ids = true.
